@@ -6,7 +6,10 @@ Self-test of tools/rs2lean.py (not part of any check; run by hand after editing 
      tuples, shadowing, block-local variables), elaborates the result with `lake env lean` and compares `#eval`s of the
      generated definitions with values computed by hand;
   2. renaming every variable of rlib/gcd/src/lib.rs and adding comments gives byte-identical Lean text;
-  3. every construct outside the subset is rejected with file:line (never skipped).
+  3. every construct outside the subset is rejected with file:line (never skipped);
+  4. the same three kinds of test for tools/rs2lean_typed.py: sample_vec.rs (Vec / bool / `&mut self` calls inside expressions /
+     recursion on fuel / `break` / short-circuit conditions) elaborated and evaluated; rename invariance on rlib/{mint,rand,dsu,sieve};
+     out-of-subset sources rejected with file:line.
 """
 import os
 import re
@@ -118,17 +121,96 @@ TY_REJECT = [  # (body of `f`, fragment expected in the error) for tools/rs2lean
     ("        *self + *self\n", ":6: `impl Add for S` is not defined in this file"),
     ("        Self::g(d)\n", ":6: a function `g` of `S` is not defined"),
     ("        unsafe { *self }\n", ":6: `unsafe`"),
-    ("        let c = d == 0;\n        *self\n", ":6: boolean values"),
-    ("        self.f(d)\n", ":6: recursion"),
+    ("        let c = d == 0;\n        if c == 1 { return *self; }\n        *self\n", ":7: comparison of values that are not integers"),
+    ("        let t = Self { v: 0 };\n        t.g(d);\n        *self\n    }\n    pub fn g(&mut self, d: u64) {\n        self.v = 1;\n", ":7: `g` takes `&mut self` but `t` is not mutable"),
+    ("        let v: Vec<u64> = Vec::new();\n        if v[d] == 0 { return *self; }\n        *self\n", ":7: type mismatch: u64 vs usize"),
+    ("        let v: Vec<u64> = Vec::new();\n        v.clear();\n        *self\n", ":7: method `.clear()` on a `Vec`"),
+    ("        let v = vec![1, 2];\n        *self\n", ":6: only the form `vec![x; n]`"),
+    ("        let v = (0..d).collect();\n        *self\n", ":6: `(a..b).collect()` is only translated where"),
+    ("        let v: Vec<Vec<u64>> = Vec::new();\n        *self\n", ":6: `Vec` of anything but"),
+    ("        let mut v: Vec<u64> = Vec::new();\n        v[0..1] = 0;\n        *self\n", ":7: a range value"),
+    ("        let mut k = d;\n        while k > 0 {\n            k = k - 1;\n            self.f(k);\n        }\n        *self\n", ":9: recursive call of `f` inside a loop"),
+    ("        if d == 0 {\n            break;\n        }\n        *self\n", ":7: `break` here is outside"),
+    ("        let mut k = d;\n        while k > 0 {\n            k = k - 1;\n            continue;\n        }\n        *self\n", ":9: `continue` here is outside"),
+    ("        let mut k = d;\n        while k > 0 {\n            break;\n            k = k - 1;\n        }\n        *self\n", ":9: statements after `break`"),
     ("        for i in 0..=d { }\n        *self\n", ":6: only `for i in a..b`"),
     ("        loop { if d == 0 { return *self; } }\n", ":6: `loop` without"),
     ("        let x: u32 = d;\n        *self\n", ":6: type mismatch"),
 ]
 
 
+VEC_FNS = ["new", "sum", "mark", "twice", "depth", "grow", "count", "iota", "find", "run_len"]
+VEC_EVALS = [  # tools/rs2lean_selftest/sample_vec.rs: Vec / bool / `&mut self` calls inside expressions / recursion on fuel
+    ("(new 0 3).toOption", "some (#[7, 7, 7], #[false, false, false])"),
+    ("(sum 9 #[7, 7, 7] #[]).toOption", "some 21"),
+    ("(match sum 3 #[7, 7, 7] #[] with | .error .fuel => 1 | _ => 0)", "1"),
+    ("(match sum 9 #[4294967295, 1] #[] with | .error .overflow => 1 | _ => 0)", "1"),
+    ("(mark 0 #[7, 7] #[false, false] 1).toOption", "some (#[7, 8], #[false, true], false)"),
+    ("(match mark 0 #[7, 7] #[false, false] 2 with | .error .index => 1 | _ => 0)", "1"),
+    ("(match mark 0 #[7, 7] #[false, false] (-1) with | .error .index => 1 | _ => 0)", "1"),
+    ("(twice 0 #[7, 7] #[false, false] 1).toOption", "some (#[7, 9], #[false, true], false)"),   # 2nd call runs on the state the 1st left
+    ("(depth 4 #[] #[] 3).toOption", "some (#[1, 1, 1], #[], 3)"),
+    ("(match depth 3 #[] #[] 3 with | .error .fuel => 1 | _ => 0)", "1"),
+    ("(grow 0 #[1, 2, 3] #[false] 2).toOption", "some (#[1, 2], #[false, true])"),
+    ("(count 9 #[] #[true, false, true]).toOption", "some 2"),
+    ("(iota 0 5).toOption", "some (#[2, 3, 4], #[])"),
+    ("(iota 0 1).toOption", "some (#[], #[])"),
+    ("(find 20 #[5, 6, 7] #[] 6 10).toOption", "some 1"),
+    ("(find 20 #[5, 6, 7] #[] 99 10).toOption", "some 3"),      # `i >= len || xs[i] == x`: the index is not evaluated past the end
+    ("(find 20 #[5, 6, 7] #[] 99 2).toOption", "some 2"),
+    ("(run_len 20 #[5, 6, 7] #[] 7 10).toOption", "some 2"),
+    ("(run_len 20 #[5, 6, 7] #[] 99 10).toOption", "some 3"),    # `i < len && xs[i] != x`
+]
+
+
+def vec_selftest(T):
+    """elaborates the translation of sample_vec.rs and compares #evals with hand-computed values; rename invariance on rlib/dsu"""
+    bad = 0
+    with tempfile.TemporaryDirectory() as d:
+        out = os.path.join(d, "SampleVec.lean")
+        info, problems = T.run(os.path.join(HERE, "rs2lean_selftest", "sample_vec.rs"), out, "Rlib.TrTestVec", "sample_vec.rs", "selftest", "Bag", VEC_FNS)
+        text = open(out).read() + "open Rlib.TrTestVec\n" + "".join(f"#eval {e}\n" for e, _ in VEC_EVALS)
+        open(out, "w").write(text)
+        r = subprocess.run(["lake", "env", "lean", out], cwd=os.path.join(os.path.dirname(HERE), "lean"), capture_output=True, text=True)
+    got = [l for l in r.stdout.split("\n") if l.strip()]
+    want = [w for _, w in VEC_EVALS]
+    if problems or r.returncode != 0 or got != want:
+        bad += 1
+        print("FAIL typed sample_vec:", problems, r.returncode, [(g, w) for g, w in zip(got, want) if g != w], r.stdout[-600:], r.stderr[-300:])
+    else:
+        print(f"ok   typed: sample_vec.rs: {len(info['functions'])} functions, {len(info['loops'])} loops, {len(VEC_EVALS)} evaluations as expected")
+    dsu = open("/repo/rlib/dsu/src/lib.rs").read()
+    fns = ["new", "reset", "par", "un", "check", "size"]
+    d0 = T.Translator(dsu, "lib.rs").translate("DSU", fns)
+    d2 = dsu
+    for old, new in (("u", "a"), ("v", "b"), ("i", "k"), ("n", "cnt")):
+        d2 = re.sub(rf"\b{old}\b", new, d2)
+    d2 = d2.replace("    pub fn par", "    // find\n    /* with /* path */ compression */\n    pub   fn   par")
+    d2 = d2.replace("p: (0..cnt).collect(),\n            sz: vec![1; cnt],", "sz: vec![1; cnt],\n            p: (0..cnt).collect(),")
+    assert "sz: vec![1; cnt],\n            p:" in d2
+    if d0 != T.Translator(d2, "lib.rs").translate("DSU", fns):
+        bad += 1
+        print("FAIL typed: renaming changes the generated text of dsu")
+    else:
+        print("ok   typed: dsu with variables renamed, comments, struct-literal fields reordered: identical text")
+    sv = open("/repo/rlib/sieve/src/lib.rs").read()
+    sfns = ["new", "min_prime", "is_prime", "primes"]
+    s0 = T.Translator(sv, "lib.rs").translate("Sieve", sfns)
+    s2 = sv
+    for old, new in (("isp", "flags"), ("mnp", "least"), ("primes", "plist"), ("i", "idx"), ("j", "k"), ("cnt", "c2")):
+        s2 = re.sub(rf"\b{old}\b", new, s2)
+    s2 = s2.replace("pub fn plist(&self)", "pub fn primes(&self)").replace("    pub fn new", "    // linear sieve\n    pub   fn   new")
+    if s0 != T.Translator(s2, "lib.rs").translate("Sieve", sfns) or s2 == sv:
+        bad += 1
+        print("FAIL typed: renaming changes the generated text of sieve")
+    else:
+        print("ok   typed: sieve (nested `for` with `break`, short-circuit `||`) with variables and fields renamed: identical text")
+    return bad
+
+
 def typed_selftest():
     import rs2lean_typed as T
-    bad = 0
+    bad = vec_selftest(T)
     mint = open("/repo/rlib/mint/src/lib.rs").read()
     d0 = T.Translator(mint, "lib.rs").translate("Modular", MINT_FNS)
     m2 = mint
